@@ -148,3 +148,12 @@ Proof.
   split; [exact ex8_frag2|]. split; [exact ex8_enum|]. split; [exact ex8_nacc|]. split; [exact ex8_nvalid|].
   split; [exact ex8_inj | exact ex8_complete].
 Qed.
+
+(** a derived factor of [act_design] outside the sampled crossing: 12 accepted candidates = 12 valid sequences *)
+Example C05_example_uncrossed_derived :
+  frag2 ex9_flat = true /\ enumerates_b ex9_flat = true /\ length (accepted_keys ex9_flat) = 12 /\
+  length (all_valid (code_sem ex9_flat)) = 12 /\ check_inj ex9_flat = true /\ check_complete ex9_flat = true.
+Proof.
+  split; [exact ex9_frag2|]. split; [exact ex9_enum|]. split; [exact ex9_nacc|]. split; [exact ex9_nvalid|].
+  split; [exact ex9_inj | exact ex9_complete].
+Qed.
